@@ -143,6 +143,9 @@ def compile_col_expr(
             order_by, descending, nulls_last = zip(
                 *[compile_order(order, name_in_df) for order in arrange], strict=True
             )
+            # polars refuses duplicate output names in `over(order_by=)` and `pl.struct`,
+            # e.g. for `arrange=[t.c.nulls_last(), -t.c]` or a key that is listed twice
+            order_by = [ord.alias(f"_order_by_{i}") for i, ord in enumerate(order_by)]
 
         # The following `if` block is absolutely unnecessary and just an optimization.
         # Otherwise, `over` would be used for sorting, but we cannot pass descending /
